@@ -130,7 +130,7 @@ def start_texts(ctx, prop, res):
         ctxs = rewrite.contexts(pick, rng, {"C01": 500, "C04": 400, "C06": 300, "C07": 1200}[prop] if q else 12000)
         gens = rewrite.generator_outputs(ctx.seed, 120 if q else 3000)
         forms = rewrite.FORMS + rewrite.contexts(rewrite.FORMS, rng, 40 if q else 400)
-        texts = sent_texts + extra + pick + ctxs + rewrite.test_json_inputs() + gens + forms + rewrite.SHARED_ID_FORMS + [t for t in rewrite.HUGE_FORMS if "=" not in t]
+        texts = sent_texts + extra + pick + ctxs + rewrite.test_json_inputs() + gens + forms + rewrite.SHARED_ID_FORMS + [t for t in rewrite.HUGE_FORMS if "=" not in t] + rewrite.BIG_EXPONENT_FORMS
         parts.append("%d/%d TLC-emitted sentences (<= 5 tokens) + %d operand variants; %d term-level trees (16 term forms, + - * /, every grouping, <= 3 leaves); "
                      "%d embeddings under + - * / ^ neg sgn = ; the inputs/outputs of every rules/*.test.json example; %d generator outputs; the documented alternate tree forms, their additive analogues and special value classes (rewrite.FORMS / EQ_FORMS)"
                      % (len(sent_texts), len(sents), len(extra), len(pick), len(ctxs), len(gens)))
